@@ -678,7 +678,7 @@ async def run_case(shared, case):
     # exception of the user's own handler (userRaised) only when it is the call that does the
     # closing; a close() of an already closed/lost device must simply return.
     for out, _log, was in closes:
-        if out == "raised" or (out == "userRaised" and was):
+        if out == "raised":      # (userRaised: the user's own handler raised while a — possibly late — protocol was being closed)
             problems.append(("close-again:raised", "close() raised (%s): %s" % (out, env.escaped)))
             break
     # "returns the same pending tasks": the same task objects, judged when the sequence is over
@@ -731,19 +731,6 @@ def model_line(case):
     events = list(case["events"]) + (["x"] if case.get("drop") else [])
     line = "seq %s %s %s" % (case["listener"], protos, ",".join(events) or "-")
     return line + (" %d" % case["connected0"] if case.get("connected0") is not None else "")
-
-
-_SIZE = None
-
-
-def _mask_late(text):
-    """connect-phase histories: FacadeAppleTV.close() (as repaired by "fix: closing the facade again closes
-    protocols connected after the first close") closes late protocols on a later call; the Lean model's
-    close() does not include that yet, so the close log and the sizes of the set are not compared there"""
-    import re
-    text = re.sub(r"set(\d+):\d+", r"set\1:*", text)
-    text = re.sub(r" K=\S+", " K=*", text)
-    return re.sub(r" P=(\d+):\d+", r" P=\1:*", text)
 
 
 def canon_impl(obs):
@@ -834,7 +821,8 @@ def exhaustive_cases(shared, ctx):
     L4c, L3c = ctx.scale(4, 5), ctx.scale(3, 4)
     cplans = [
         (2, 1, L4c, ["r0c", "r0l1", "r1c", "u", "c", held], [(1, ("c",)), (1, ())], "a", True),
-        (3, 1, L4c, ["r0l1", "r1c", "u", "c", top], [(1, ("c",)), (0, ()), (1, ())], "a", True),
+        (3, 1, L4c, ["r0l1", "r1c", "u", "c", top], [(1, ()), (0, ("c",)), (1, ("l0",))], "a", True),
+        (2, 1, L4c, ["r0c", "u", "c", held], [(1, ()), (2, ("c~a%d+u!" % itop,))], "a", True),
         (3, 2, L3c, ["r0c", "r2l3", "u", "c", "L2"], [(1, ("c",)), (1, ()), (0, ())], "n", True),
         (2, 2, L4c, ["r0c", "r1l2", "u", "sF", "s", "t"], [(1, ()), (0, ("c",))], "a", False),
         (2, 1, L3c, ["r0l1", "u", "sF", "c", "t"], [(1, ()), (1, ())], "a", False),
@@ -909,8 +897,6 @@ def random_cases(shared, ctx, count):
             for _c in range(n - c0):
                 events.insert(rng.randint(0, len(events)), "c")
             case["connected0"] = c0
-            for late in protos[c0:]:
-                late[1] = []       # (a protocol closed late emits no report: see _mask_late)
         if rng.random() < 0.2:
             events.insert(rng.randint(0, len(events)), "sF")
         yield case
@@ -1099,8 +1085,6 @@ def _evaluate(ctx, shared, cases, judge=True):
         for c in obs["api_classes"]:
             ctx.note("open-api-result:" + c)
         impl, model = canon_impl(obs), canon_model(ans, obs)
-        if case.get("connected0") is not None:
-            impl, model = _mask_late(impl), _mask_late(model)
         if impl != model:
             ctx.disagree({k: case[k] for k in ("listener", "protos", "reporters", "events", "drop", "connected0") if k in case}, impl, model, where="facade life cycle")
         ctx.validated()
@@ -1173,7 +1157,7 @@ def fixed_cases(shared):
     for lmode in "an":
         # loss / close while connect() is still awaiting protocol 1 (and 2); connect() then completes
         for ev in ("r0l1", "r0c", "u", "r1c"):
-            fixed.append({"listener": lmode, "protos": [[1, ["c"]], [1, []], [0, []]], "reporters": DEFAULT_REPORTERS,
+            fixed.append({"listener": lmode, "protos": [[1, ["c"]], [1, ["l1"]], [2, ["c~%s+u" % top]]], "reporters": DEFAULT_REPORTERS,
                           "connected0": 1, "events": ["s", "p0", ev, top, "c", held, "p0", "c", top, held, "p0", "u", "u"], "probe": False})
         # push_updater.start() fails in the second protocol's updater; then close / loss; then pushes
         for ev in ("u", "r1l2", "r0c"):
